@@ -36,10 +36,11 @@ type stats struct {
 	byPhase  map[string]int
 	byErr    map[string]int
 	aspects  map[string]bool // aspects this check decides
+	reported map[string]bool // violation keys already handled (a class is confirmed and reported once)
 }
 
 func newStats(aspects ...string) *stats {
-	s := &stats{byPhase: map[string]int{}, byErr: map[string]int{}, aspects: map[string]bool{}}
+	s := &stats{byPhase: map[string]int{}, byErr: map[string]int{}, aspects: map[string]bool{}, reported: map[string]bool{}}
 	for _, a := range aspects {
 		s.aspects[a] = true
 	}
@@ -67,6 +68,13 @@ func (s *stats) countErr(class string) {
 func report(c *core.Ctx, d *drv, st *stats, fs []finding, replay map[string]any, again func(fd *drv) ([]finding, error)) {
 	for _, f := range fs {
 		if !st.aspects[f.Aspect] {
+			continue
+		}
+		st.mu.Lock()
+		dup := st.reported[f.Key]
+		st.reported[f.Key] = true
+		st.mu.Unlock()
+		if dup {
 			continue
 		}
 		f := f
